@@ -289,6 +289,11 @@ type hNoFieldClaims struct {
 	IClaims
 	X int `cbor:"1,keyasint" json:"x"`
 }
+// a claims type whose only member NAMED Profile carries an ordinary claim key: no identifiable profile field
+type hMisnamedClaims struct {
+	IClaims
+	Profile *string `cbor:"99,keyasint" json:"vendor-profile"`
+}
 type hBadProfile struct{ name string }
 
 func (p hBadProfile) GetName() string    { return p.name }
@@ -333,6 +338,12 @@ func boundedRegistry() bool {
 	// a claims type without an identifiable profile field
 	if err := RegisterProfile(hBadProfile{"http://harness.example/no-profile-field"}); err == nil {
 		bad("a profile whose claims type has no profile field was registered")
+	}
+	if err := RegisterProfile(hNamedProfile{"http://harness.example/misnamed-field", func() IClaims { return &hMisnamedClaims{} }}); err == nil {
+		bad("a profile whose claims type has a member named Profile under an ordinary claim key (99), and no profile claim, was registered")
+	}
+	if typeOf("http://harness.example/misnamed-field") != "error" {
+		bad("the refused registration (member named Profile under key 99) is visible to NewClaims")
 	}
 	if typeOf("http://harness.example/no-profile-field") != "error" || snapshot() != before {
 		bad("a failed registration changed the lookups: %s vs %s", snapshot(), before)
@@ -389,6 +400,24 @@ func boundedRegistry() bool {
 	}
 	if !strings.HasSuffix(first, "true") {
 		bad("a token declaring two profiles was accepted: %s", first)
+	}
+	// ... and a token naming one registered profile while the member of another carries an unregistered value:
+	// whatever the verdict, it is the same in every iteration order
+	for _, mixed := range [][]byte{
+		[]byte(`{"psa-profile":"PSA_IOT_PROFILE_1","eat-profile":"http://unregistered.example/x"}`),
+		[]byte(`{"eat-profile":"http://arm.com/psa/2.0.0","psa-profile":"NOT_A_PROFILE"}`),
+	} {
+		first = ""
+		for i := 0; i < 300; i++ {
+			c, err := DecodeClaimsFromJSON(mixed)
+			out := fmt.Sprintf("%T %v", c, err)
+			if i == 0 {
+				first = out
+			} else if out != first {
+				bad("JSON dispatch of %s is not stable: %s vs %s", mixed, first, out)
+				break
+			}
+		}
 	}
 	return ok
 }
